@@ -5,7 +5,7 @@ import math
 
 from hypothesis import strategies as st
 
-from vfw import build, observe, specs
+from vfw import build, observe, oracles, specs
 from vfw.engine import Phase, PropertyViolation
 
 PROPERTY_ID = "C13"
@@ -175,7 +175,20 @@ def run_call(model, c, case):
             x.add_metabolites({model.metabolites[a % len(mids)].copy(): -1, model.metabolites[b % len(mids)].copy(): 1})
             new.append(x)
         uni.add_reactions(new)
-        sol = gapfilling.gapfill(model, uni, demand_reactions=c["flag"], lower_bound=0.05)
+        # the universal model is a model the analysis takes, too: content, solver and cross references before == after
+        # (since seeded change C13-8); both switches are drawn
+        ub = observe.snapshot(uni)
+        try:
+            sol = gapfilling.gapfill(model, uni, demand_reactions=c["flag"], exchange_reactions=bool(c["j"] % 2), lower_bound=0.05)
+        finally:
+            d = observe.diff(ub, observe.snapshot(uni), limit=4)
+            if d:
+                _v("gapfill:universal-changed", f"gapfill(demand_reactions={c['flag']}, exchange_reactions={bool(c['j'] % 2)}) left the universal model changed: {d}")
+            try:
+                observe.audit_crossrefs(uni, "gapfill:universal")
+            except PropertyViolation as v:
+                _v("gapfill:universal-detached", f"gapfill(demand_reactions={c['flag']}, exchange_reactions={bool(c['j'] % 2)}) broke the cross references of the "
+                                                 f"universal model: {v.message}")
         return len(sol[0])
     if name == "fastcc":
         m2 = fa.fastcc(model)
@@ -209,6 +222,15 @@ def run_call(model, c, case):
 
 def _same(a, b):
     return not observe.diff(a, b, rel=1e-6, limit=2)
+
+
+def _unbounded_end(spec):
+    """Does some reaction have an exactly unbounded flux range (no objective row)?"""
+    try:
+        st_, ranges, _ = oracles.fva(spec, [r["id"] for r in spec["rxns"]], objective_row=False)
+    except Exception:  # noqa: BLE001
+        return False
+    return st_ == "optimal" and any(lo is None or hi is None for lo, hi in ranges.values())
 
 
 def check_case(case, ctx):
@@ -274,6 +296,15 @@ def check_case(case, ctx):
             d = observe.diff(before, observe.snapshot(model), limit=4)
             if d:
                 _v(f"{name}:model-changed-second-call", f"second {name} call left the model changed: {d}")
+            if (exc1 is None) != (exc2 is None) and name == "blocked" and _unbounded_end(spec) and "unbounded" in str(exc1 or exc2):
+                # find_blocked_reactions only passes reactions to FVA that carry no flux in its initial optimisation, and FVA
+                # raises for a reaction whose flux is unbounded: whether such a reaction is passed on depends on the vertex
+                # the solver happens to return (known finding blocked-unbounded-vertex-dependent)
+                if "blocked-unbounded-vertex-dependent" in ctx.known:
+                    ctx.excluded_by("blocked-unbounded-vertex-dependent")
+                    continue
+                _v("blocked:unbounded-vertex-dependent", f"model with a reaction of unbounded flux: first call {'raised ' + repr(exc1) if exc1 else 'returned ' + str(res1)}, "
+                                                         f"second call {'raised ' + repr(exc2) if exc2 else 'returned ' + str(res2)}")
             if (exc1 is None) != (exc2 is None):
                 _v(f"{name}:not-repeatable", f"first call {'raised ' + repr(exc1) if exc1 else 'returned'}, second call {'raised ' + repr(exc2) if exc2 else 'returned'}")
             if exc1 is None and res1 is not None and not _same(res1, res2):
